@@ -184,6 +184,10 @@ pub fn run(thorough: bool) {
     let mut probe_ops = 0;
     for pool in if thorough { vec![1usize, 2, 16] } else { vec![1usize, 4] } {
         for sc in scenarios(thorough) {
+            // quick tier: the larger pool is exercised on the conflict-heavy scenarios only
+            if !thorough && pool != 1 && !["pair-conflict", "pair-rootkinds", "trio"].contains(&sc.name.as_str()) {
+                continue;
+            }
             let full = full_alphabet(sc.nrep, sc.menu.docs.len());
             let ex = Explorer {
                 sc: sc.clone(),
@@ -195,7 +199,9 @@ pub fn run(thorough: bool) {
                     ..Default::default()
                 },
             };
+            let t_sc = std::time::Instant::now();
             let r = ex.run(false);
+            let sc_wall = t_sc.elapsed().as_secs_f64();
             total_states += r.stats.states;
             total_trans += r.stats.transitions;
             probe_ops += r.cx.counters.get("probe_ops").copied().unwrap_or(0);
@@ -203,6 +209,7 @@ pub fn run(thorough: bool) {
             let mut sj = stats_json(&r.stats);
             sj["scenario"] = sc.describe();
             sj["rayon_pool_size"] = json!(pool);
+            sj["wall_s"] = json!((sc_wall * 10.0).round() / 10.0);
             scs.push(sj);
             for s in &r.stats.sample_histories {
                 rep.push_sample(json!({"scenario": sc.name, "history": s}));
